@@ -10,12 +10,44 @@ import (
 
 // convert incoming EEBUS json format into standard json format
 func JsonFromEEBUSJson(json []byte) []byte {
+	// only the structure is converted, the content of strings has to stay as it is
+	result := make([]byte, 0, len(json))
+	start := 0
+	inString := false
+	for i := 0; i < len(json); i++ {
+		if inString && json[i] == '\\' {
+			// skip the escaped character
+			i++
+			continue
+		}
+		if json[i] != '"' {
+			continue
+		}
+		if inString {
+			result = append(result, json[start:i+1]...)
+			start = i + 1
+		} else {
+			result = append(result, structureFromEEBUSJson(json[start:i])...)
+			start = i
+		}
+		inString = !inString
+	}
+	if inString {
+		result = append(result, json[start:]...)
+	} else {
+		result = append(result, structureFromEEBUSJson(json[start:])...)
+	}
+	// The PMCP device mistakenly adds an `0x00` byte at the end of many messages.
+	result = bytes.Trim(result, "\x00")
+	return result
+}
+
+// convert the structural part (everything outside of strings) of incoming EEBUS json
+func structureFromEEBUSJson(json []byte) []byte {
 	var result = bytes.ReplaceAll(json, []byte("[{"), []byte("{"))
 	result = bytes.ReplaceAll(result, []byte("},{"), []byte(","))
 	result = bytes.ReplaceAll(result, []byte("}]"), []byte("}"))
 	result = bytes.ReplaceAll(result, []byte("[]"), []byte("{}"))
-	// The PMCP device mistakenly adds an `0x00` byte at the end of many messages.
-	result = bytes.Trim(result, "\x00")
 	return result
 }
 
